@@ -58,15 +58,28 @@ def decode_input(MR, data, validate, mark=None):
         nb += 1
         for a in BATCH_ATTRS:
             getattr(batch, a, None)
-        if validate:
+        if validate is True:
             if mark:
                 mark(type(batch).__name__ + ".validate_crc")
             crcs.append(bool(batch.validate_crc()))
         if mark:
             mark(type(batch).__name__ + ".__iter__")
-        for r in batch:
-            r.key, r.value, r.headers, r.offset, r.timestamp, r.timestamp_type, r.checksum  # noqa: B018
-            nr += 1
+        it_exc = None
+        try:
+            for r in batch:
+                r.key, r.value, r.headers, r.offset, r.timestamp, r.timestamp_type, r.checksum  # noqa: B018
+                nr += 1
+        except Exception as e:  # noqa: BLE001
+            if validate != "after":
+                raise
+            it_exc = e
+        if validate == "after":
+            # checksum validation requested after the records were (or failed to be) iterated: same safety demands
+            if mark:
+                mark(type(batch).__name__ + ".validate_crc")
+            batch.validate_crc()
+            if it_exc is not None:
+                raise it_exc
         if nb > limit:
             raise RuntimeError("next_batch() does not advance")
     return nb, nr, crcs
@@ -90,10 +103,10 @@ def where_of(exc):
 def outcome_of(MR, data, mark=None):
     """Decode with and without validate_crc(); Python-level result only."""
     out = {"nb": 0, "nr": 0, "crc": [], "exc": None, "crash": None}
-    for validate in (True, False):
+    for validate in (True, False, "after"):
         try:
             nb, nr, crcs = decode_input(MR, data, validate, mark)
-            if validate:
+            if validate is True:
                 out["nb"], out["nr"], out["crc"] = nb, nr, crcs
         except Exception as e:  # noqa: BLE001 - classification is the caller's job
             rec = [type(e).__name__, where_of(e), str(e)[:200]]
